@@ -56,7 +56,7 @@ CHECKS.append(
     dict(id="C20", level="other", engine="E1+E2+E3",
          text="Per native Term/TryFromTerm impl: datatype constants, boolean constants, plain `{}` rendering with the "
               "Display language included in the XSD lexical space, Display of f64 only off the is_infinite() edge with "
-              "INF/-INF constants; conversions parse the lexical form only behind whitelisted datatype tests and on the literal branch, as the Rust type whose value space is the datatype's (xsd:float as f32); the SPARQL engine's own formatting of computed floats/doubles is on the finite edge of a test (one known finding). Decides the construction tables, not std's numeric round trip.",
+              "INF/-INF constants; conversions parse the lexical form only behind whitelisted datatype tests and on the literal branch, as the Rust type whose value space is the datatype's (xsd:float as f32); the SPARQL engine's own formatting of computed floats/doubles is on the finite edge of a test (one known finding) and of decimals in plain notation. Decides the construction tables, not std's numeric round trip.",
          note="Trusted: rustc MIR, std Display/FromStr behaviour as stated in the evidence assumptions. Known finding: SparqlValue::lexical_form writes computed infinities as \"inf\" (pinned by two unit tests of the repository).",
          technique="static: table agreement + edge-dominance over MIR; one DFA inclusion"))
 CHECKS.append(
@@ -92,11 +92,11 @@ CHECKS.append(
     dict(id="C13", level="other", engine="E1+E3",
          text="Dispatch tables of the SPARQL engine read from MIR switch tables (variant names): every GraphPattern/Query/"
               "Expression variant matched explicitly, supported ones reach exactly their evaluator, all others reach "
-              "NotImplemented with nothing evaluated, FROM NAMED rejected up front; FILTER's keep-iff-truthy chain; binding "
+              "NotImplemented with nothing evaluated, every query dataset (FROM / FROM NAMED) refused up front; FILTER's keep-iff-truthy chain; binding "
               "consistency checks guard every insertion; positional DISTINCT key; GRAPH ?g pre-binding; SPARQL error semantics in "
               "eval (|| and && evaluate both operands, no evaluation error turned into a value, no evaluator/dataset Result "
               "swallowed - one known finding: EXISTS, the active graph threaded unchanged); panic audit of the evaluator core AND of the function library / numeric tower / value comparison (armed after the hunt round: audited table, checked native arithmetic, directed rounding of decimals, no Option-al value compared, no Err item counted as a solution); four further constructs are reported as known findings (silent not-implemented function stubs, projection not restricting solutions, GRAPH without an existence test, the query's base IRI dropped). Decides these structural clauses, not equality with the algebra's multisets.",
-         note="Trusted: spargebra's algebra; rustc MIR. Assumption A13: queries reach the evaluator only through spargebra's parser (fixed arities of built-in calls). Known findings: EXISTS swallows NotImplemented/dataset errors; R13.18-R13.21 (KNOWN_FINDINGS.txt).",
+         note="Trusted: spargebra's algebra; rustc MIR. Assumption A13: built-in calls have the arity of their grammar production (true for queries parsed by spargebra; a spargebra::Query built by hand and passed through the public From impl is outside it). Known findings: EXISTS swallows NotImplemented/dataset errors; R13.18-R13.21 (KNOWN_FINDINGS.txt).",
          technique="static: path/arm template extraction over MIR switch tables + dominator rules + panic audit"))
 CHECKS.append(
     dict(id="C18", level="other", engine="E1+E3",
@@ -111,7 +111,7 @@ CHECKS.append(
          text="The expressibility filter (kind tables of is_subject/is_object/is_bnode read from switch tables, is_jsonld as the "
               "conjunction over s/p/o/g, a quad skipped iff !is_jsonld on every path of process_quads) and a panic audit of the "
               "whole JSON-LD serializer (every unwrap, panic macro, map/vector/string index auto-discharged or audited by exact "
-              "key with its invariant). Plus the list bookkeeping clauses: unique-parent reset condition, singleton tests, suppression of a list node only in its parent's graph, and the label-keeping rule (a blank node that names a graph or is a subject in several graphs is never folded into @list). Decides which quads are omitted, these necessary conditions of list folding, and that the engine has no unaudited panic site, not the round trip.",
+              "key with its invariant). Plus the list bookkeeping clauses: unique-parent reset condition, singleton tests, suppression of a list node only in its parent's graph, the label-keeping rule (a blank node that names a graph or is a subject in several graphs is never folded into @list), compound literals folded only with a recorded unique parent, and the options builders copying every option from the field of the same name. Decides which quads are omitted, these necessary conditions of list folding, and that the engine has no unaudited panic site, not the round trip.",
          note="Trusted: json-ld/json-syntax; the invariants written in the audited table of rules/c12.py. Known finding: a typed rdf:List node is folded and its rdf:type triple dropped (the W3C algorithm is lossy here).",
          technique="static: switch-table extraction + path enumeration + MIR panic-site audit"))
 CHECKS.append(
@@ -167,7 +167,7 @@ CHECKS.append(
     dict(id="C06", level="other", engine="E1+E3",
          text="The canonical N-Quads escaping table read from _cnq::nq's character switch and format template (upper-case \\uXXXX), "
               "the safeguards' dataflow (compared only, failing with ToxicGraph), unsupported input rejected before any quad is "
-              "recorded with the closed set of error variants, every related blank node occurrence appended in Hash N-Degree Quads, one reference per blank node and quad in step 2.1, what the two safeguards are compared with (two known findings), and a panic audit of the canonicalisation functions. Decides these "
+              "recorded with the closed set of error variants, every related blank node occurrence appended in Hash N-Degree Quads, one reference per blank node and quad in step 2.1, literals refused in subject / predicate / graph-name position, the consumed writer flushed before Ok, what the two safeguards are compared with (two known findings), and a panic audit of the canonicalisation functions. Decides these "
               "clauses, not equality with the W3C algorithm's hashes/paths.",
          note="Trusted: the RDF 1.2 canonical N-Quads escape table in rules/c06.py (incl. U+FFFE/U+FFFF); sha2; audited panic table. Known findings: the permutation limit counts occurrences, not nodes; the recursion bound grows with the input (stack overflow on long chains).",
          technique="static: switch-table/format-template extraction + taint of safeguard reads + dominator rules + panic audit"))
